@@ -536,7 +536,9 @@ func runPrematureUse(p *Prog, r *Report) {
 					readAfter := false
 					for j := overrideIdx + 1; j < len(blk.List); j++ {
 						ast.Inspect(blk.List[j], func(z ast.Node) bool {
-							if u, ok := z.(*ast.Ident); ok && info.Uses[u] == o {
+							// (only reads the overriding value can flow to: an override in a branch
+							// that returns is local to that branch)
+							if u, ok := z.(*ast.Ident); ok && info.Uses[u] == o && reachesStmt(fn, oas, u, nil) {
 								readAfter = true
 							}
 							return !readAfter
